@@ -252,6 +252,14 @@ theorem narrowRoot_eq (fields : List Field) :
     narrowRoot fields = (decide (fields.length < UNKNOWN_KEY) && fields.all narrowF) := by
   simp [narrowRoot, narrowDT, narrowFs_ofList]
 
+/-- the hypothesis of R3 / `C01_build_decode` on a batch of records: every raw key/value call stream alternates, and —
+unless no record contains a raw stream at all — the schema meets the sentinel bound -/
+def RawRows (fields : List Field) (rows : List SVal) : Prop :=
+  (∀ x ∈ rows, structStreamsAlternate x = true) ∧ ((∀ x ∈ rows, noRaw x = true) ∨ narrowRoot fields = true)
+
+theorem RawRows.of_noRaw {fields : List Field} {rows : List SVal} (h : ∀ x ∈ rows, noRaw x = true) :
+    RawRows fields rows := ⟨fun x hx => noRaw_ssa x (h x hx), Or.inl h⟩
+
 /-! ### a struct builder and a raw stream: what survives
 
 `normOps ops` keeps exactly the (key, value) pairs in which the value directly follows its key: a value without a key
